@@ -129,6 +129,34 @@ def ob_a(shape: int, a: int, b: int) -> bool:
     return True
 
 
+# ------------------------------------------------------------------ C07.d the range validator for EVERY measure count
+class _StubScore:
+    """Only what Exporter.export_options_validator reads: the table of measure starts (its length is the measure count)."""
+    def __init__(self, starts):
+        self.measure_start_tree_stages = starts
+
+
+def ob_d(starts: list, a: int, b: int, a_none: bool, b_none: bool) -> bool:
+    """Exporter.export_options_validator on a score with ANY number of measures M (the length of a symbolic list) and any integer
+    pair, either of which may be omitted: it raises ValueError exactly for a negative start, an end beyond M, or an end before the
+    start -- and for nothing else (no clamping, no other exception)."""
+    from kernpy.core.exporter import Exporter, ExportOptions
+    M = len(starts)
+    fa = None if a_none else a
+    fb = None if b_none else b
+    opts = ExportOptions(from_measure=fa, to_measure=fb)
+    bad = (fa is not None and fa < 0) or (fb is not None and fb > M) or (fa is not None and fb is not None and fb < fa)
+    try:
+        Exporter.export_options_validator(_StubScore(starts), opts)
+    except ValueError:
+        check(bad, lambda: f'ValueError for the valid range from_measure={concrete(fa)} to_measure={concrete(fb)} on a score of {concrete(M)} measures')
+        return True
+    check(not bad, lambda: f'from_measure={concrete(fa)} to_measure={concrete(fb)} on a score of {concrete(M)} measures was not rejected with ValueError')
+    check(opts.from_measure is fa or opts.from_measure == fa, 'the validator changed from_measure (clamping)')
+    check(opts.to_measure is fb or opts.to_measure == fb, 'the validator changed to_measure (clamping)')
+    return True
+
+
 def ob_b(shape: int) -> bool:
     """Partition: the single-measure exports together contain every data line of the full export
     exactly once; iteration yields 1..M."""
@@ -260,6 +288,13 @@ UNTRACE = [('kernpy.core.exporter', 'Exporter.append_row'), ('kernpy.core.export
            ('kernpy.core.tokens', 'TokenCategoryHierarchyMapper.valid')]
 
 OBLIGATIONS = [
+    Ob(id='C07.d', fn=ob_d, title='the range validator accepts exactly 0 <= from <= to <= M, for every measure count M and every integer pair (either may be omitted)',
+       budget_s={'quick': 120, 'thorough': 600}, opaque_numbers=True,
+       witnesses=[{'starts': [1, 3, 5], 'a': 1, 'b': 3, 'a_none': False, 'b_none': False}, {'starts': [2], 'a': 0, 'b': 2, 'a_none': True, 'b_none': False}], min_confirmed=8,
+       symbolic='measure-start table of symbolic length (M unbounded), from_measure, to_measure: unbounded integers, two "omitted" flags',
+       bounds={'quick': 'every M (length of a symbolic list), every integer pair, each side given or omitted', 'thorough': 'same'},
+       assumptions=['the validator reads the document only through len(document.measure_start_tree_stages) (a path on which it reads anything else fails on the stub and is reported as unknown)',
+                    'symbolic numbers are rendered opaquely inside error messages']),
     Ob(id='C07.a', fn=ob_a, title='range export == measure model; out-of-range pairs rejected, for all integer pairs',
        shard_of=lambda shape, a, b: shape, shards={'quick': 16, 'thorough': 16},
        budget_s={'quick': 170, 'thorough': 2400}, opaque_numbers=True, untrace=UNTRACE,
